@@ -24,21 +24,18 @@ def what_of(e):
 
 
 def selftest(ctx, trace, cfg):
-    lines = lib.read_lines(trace)[:4000]
-    # keep parse/rt pairs together at the cut
-    while lines and '"op":"parse"' in lines[-1] and '"more":true' in lines[-1]:
-        lines.pop()
+    lines = pc.sample_lines(trace)
 
     def corrupt(ls):
         # a rebuilt digest is changed: the fixed point is lost
-        i = next(i for i, l in enumerate(ls) if '"op":"rt"' in l and '"b3":{"d"' in l and '"src":"fixture"' in l)
+        i = next(i for i, l in enumerate(ls) if '"op":"rt"' in l and '"b3":{"d"' in l and '"l2":"' in l)
         e = json.loads(ls[i])
         e["b3"]["d"] = "0" * 32
         ls[i] = json.dumps(e, separators=(",", ":"))
         return ls, i + 1
 
     def logical(ls):
-        i = next(i for i, l in enumerate(ls) if '"op":"rt"' in l and '"l2":"' in l and '"src":"mut"' in l and '"fmt":"install"' in l)
+        i = next(i for i, l in enumerate(ls) if '"op":"rt"' in l and '"l2":"' in l and '"b3":{"d"' in l)
         e = json.loads(ls[i])
         e["l2"] = "f" * 32
         ls[i] = json.dumps(e, separators=(",", ":"))
@@ -46,7 +43,7 @@ def selftest(ctx, trace, cfg):
 
     def drop(ls):
         # the round-trip event of an accepted input disappears: flagged at the event that follows its parse event
-        i = next(i for i in range(20, len(ls) - 2) if '"op":"rt"' in ls[i])
+        i = next(i for i in range(1, len(ls) - 2) if '"op":"rt"' in ls[i])
         del ls[i]
         return ls, i + 1
 
@@ -60,7 +57,13 @@ def selftest(ctx, trace, cfg):
     res = {"corrupt_rebuilt_digest_flagged": pc.selftest_lines(ctx, MODULE_T, cfg, lines, corrupt, "a"),
            "corrupt_logical_digest_flagged": pc.selftest_lines(ctx, MODULE_T, cfg, lines, logical, "b"),
            "drop_one_event_flagged": pc.selftest_lines(ctx, MODULE_T, cfg, lines, drop, "c")}
-    bl = [l for l in lib.read_lines(trace) if '"op":"bprog"' in l][:1500]
+    bl = []
+    with open(trace) as f:
+        for l in f:
+            if '"op":"bprog"' in l:
+                bl.append(l.rstrip("\n"))
+                if len(bl) >= 1500:
+                    break
     res["corrupt_read_back_entry_flagged"] = pc.selftest_lines(ctx, MODULE_T, cfg, bl, bprog, "d")
     ctx.cov["binding_selftest"] = res
     if not all(res.values()):
@@ -79,11 +82,10 @@ def run(ctx):
     v, cfg = pc.judge(ctx, MODULE_T, run_.trace, kd, f"fixtures + builder programs + mutations seed={ctx.seed}", boundary=pc.rt_boundary)
     pc.classify(ctx, v, run_, "drv_parse", what_of, group_of=lambda e: (e.get("fmt"), e.get("op"), what_of(e).split(": ", 1)[-1][:160] if e.get("op") == "rt" else e.get("ver")))
     selftest(ctx, run_.trace, cfg)
-    lines = lib.read_lines(run_.trace)
-    for want in ('"op":"bprog"', '"op":"rt","p2"', '"exact":true'):
-        l = next((x for x in lines if want in x or (want == '"op":"rt","p2"' and '"op":"rt"' in x and '"src":"mut"' in x)), None)
-        if l:
-            ctx.cov["samples"].append({"source": want, "trace": [json.loads(l)]})
+    preds = [lambda l: '"op":"bprog"' in l and '"got":[{' in l, lambda l: '"op":"rt"' in l and '"src":"mut"' in l, lambda l: '"op":"rt"' in l and '"exact":true' in l]
+    for want, e in zip(("builder program", "accepted mutated input", "real CDN fixture"), pc.first_matching(run_.trace, preds)):
+        if e:
+            ctx.cov["samples"].append({"source": want, "trace": [e]})
     ctx.cov["traces_validated_against_impl"] = v.get("judged", 0)
     ctx.cov["evaluations"] = v.get("judged", 0)
     ctx.cov["distinct_nontrivial"] = nprog + d.get("rt", 0)
